@@ -692,7 +692,7 @@ func (it *Interp) runPath(prefix []decision, model Model) {
 		hs.stubs[k] = true
 	}
 	switch end {
-	case "unwind", "unsupported", "internal", "blocked":
+	case "unwind", "unsupported", "internal", "blocked", "gopanic", "selfdeadlock", "exit", "unknown":
 		if len(hs.errors) < 20 {
 			hs.errors = append(hs.errors, end+": "+endMsg)
 		}
